@@ -33,8 +33,6 @@ pub enum Mode {
 #[derive(Clone, Debug)]
 pub struct Plan {
     pub mode: Mode,
-    /// leave parses alone even if every literal length is 0 / every match length is 3 (F4)
-    pub allow_f4: bool,
     /// explicit parse per block index (overrides the parser)
     pub fixed: HashMap<usize, Vec<(usize, usize, usize)>>,
     pub chain: usize,
@@ -53,6 +51,10 @@ pub struct BlockLog {
 pub struct Log {
     pub blocks: Vec<BlockLog>,
     pub resets: usize,
+    /// blocks in the situations that used to panic (F4, F10): counted, to show they are exercised
+    pub all_ll_zero: usize,
+    pub all_ml_three: usize,
+    pub single_value_literals: usize,
 }
 
 pub struct ScriptMatcher {
@@ -232,13 +234,17 @@ impl Matcher for ScriptMatcher {
             Some(p) => p.clone(),
             None => make_parse(&self.history, self.last_start, self.window as usize, &self.plan, &mut self.rng),
         };
-        if !self.plan.allow_f4 && !self.plan.fixed.contains_key(&bi) {
-            while f4_ll(&parse) || f4_ml(&parse) {
-                // the first match becomes literals of the next sequence
-                let (ll, _, ml) = parse.remove(0);
-                if let Some(n) = parse.first_mut() {
-                    n.0 += ll + ml;
-                }
+        // (F4 repaired: parses whose literal lengths are all 0 / match lengths all 3 are left alone)
+        {
+            let mut log = self.log.borrow_mut();
+            if f4_ll(&parse) {
+                log.all_ll_zero += 1;
+            }
+            if f4_ml(&parse) {
+                log.all_ml_three += 1;
+            }
+            if f10(&self.history[self.last_start..], &parse) {
+                log.single_value_literals += 1;
             }
         }
         self.log.borrow_mut().blocks[bi].parse = Some(parse.clone());
@@ -265,7 +271,9 @@ impl Matcher for ScriptMatcher {
     }
 }
 
+/// the window the header declares for `window_size() = w` (since the repair of F13: at least 128 KiB)
 pub fn declared_window(w: u64) -> u64 {
+    let w = w.max(BLOCK as u64);
     let log = if w <= 1 { 0 } else { 64 - (w - 1).leading_zeros() };
     let e = if log > 10 { log - 10 } else { 1 };
     1u64 << (10 + e)
@@ -276,7 +284,7 @@ fn script_valid(w: u64, data: &[u8], log: &Log) -> bool {
     if w > 1 << 41 {
         return false;
     }
-    let maxs = declared_window(w).min(BLOCK as u64) as usize;
+    let maxs = BLOCK;
     let mut start = 0usize;
     for b in &log.blocks {
         if b.space == 0 || b.space > maxs {
@@ -339,15 +347,15 @@ pub struct Case {
     pub data: Vec<u8>,
     pub lvl: Lvl,
     pub frags: Vec<usize>,
-    /// the script is deliberately outside `ValidMatcher` (probe); failures are notes, not violations
-    pub probe: bool,
 }
 
-fn plan(mode: Mode) -> Plan {
-    Plan { mode, allow_f4: false, fixed: HashMap::new(), chain: 8 }
+pub fn plan(mode: Mode) -> Plan {
+    Plan { mode, fixed: HashMap::new(), chain: 8 }
 }
 
-fn run_case(run: &mut Run, c: &Case, seed: u64, spec_limit: usize, spec_budget: &mut usize) {
+/// one case through the public API; `rt_props` / `st_props`: the properties a failed round trip (or panic) /
+/// a structural failure is reported under (`C16` here; `C02` / `C15` for the user-matcher cases of engine `enc`)
+pub fn run_case(run: &mut Run, c: &Case, seed: u64, spec_limit: usize, spec_budget: &mut usize, rt_props: &[&str], st_props: &[&str]) {
     let log = Rc::new(RefCell::new(Log::default()));
     let m = ScriptMatcher::new(c.w, c.spaces.clone(), c.plan.clone(), seed, log.clone());
     let data = c.data.clone();
@@ -367,6 +375,9 @@ fn run_case(run: &mut Run, c: &Case, seed: u64, spec_limit: usize, spec_budget: 
     run.stat("blocks", log.blocks.len() as u64);
     let nseq: usize = log.blocks.iter().map(|b| b.parse.as_ref().map(|p| p.len()).unwrap_or(0)).sum();
     run.stat("sequences", nseq as u64);
+    run.stat("blocks_all_ll_zero", log.all_ll_zero as u64);
+    run.stat("blocks_all_ml_three", log.all_ml_three as u64);
+    run.stat("blocks_single_value_literals_gt_1024", log.single_value_literals as u64);
     let maxseq = log.blocks.iter().map(|b| b.parse.as_ref().map(|p| p.len()).unwrap_or(0)).max().unwrap_or(0);
     if maxseq >= 32512 {
         run.stat("blocks_with_ge_32512_sequences", 1);
@@ -381,6 +392,8 @@ fn run_case(run: &mut Run, c: &Case, seed: u64, spec_limit: usize, spec_budget: 
             let bi = log.blocks.iter().rposition(|b| b.parse.is_some());
             let mut start = 0;
             let mut sig = format!("panic_{}", sig_of_panic(&p));
+            // name the situation of the block that was being encoded (F4 / F10 are repaired: these are
+            // plain violations now, the suffix only helps the reader)
             if let Some(bi) = bi {
                 for b in &log.blocks[..bi] {
                     start += b.space;
@@ -388,24 +401,23 @@ fn run_case(run: &mut Run, c: &Case, seed: u64, spec_limit: usize, spec_budget: 
                 let b = &log.blocks[bi];
                 let blk = &c.data[start..(start + b.len).min(c.data.len())];
                 let parse = b.parse.as_ref().unwrap();
-                if p.contains("fse_encoder.rs") && f4_ll(parse) {
-                    sig = "f4_all_ll_zero".into();
-                } else if p.contains("fse_encoder.rs") && f4_ml(parse) {
-                    sig = "f4_all_ml_three".into();
-                } else if p.contains("huff0_encoder.rs") && f10(blk, parse) {
-                    sig = "f10_single_literal_value".into();
+                if f4_ll(parse) {
+                    sig.push_str("_all_ll_zero");
+                } else if f4_ml(parse) {
+                    sig.push_str("_all_ml_three");
+                } else if f10(blk, parse) {
+                    sig.push_str("_single_literal_value");
                 }
             }
+            let sig = sig;
             run.stat(&format!("panic_{}", sig), 1);
-            if c.probe {
-                run.notes.push(format!("probe '{}': panic {}", c.label, p));
-            } else {
-                run.fail("C16", &sig, format!("{}: compression with a well-behaved scripted matcher panics: {}", c.label, p), replay);
+            for pr in rt_props {
+                run.fail(pr, &sig, format!("{}: compression with a well-behaved scripted matcher panics: {}", c.label, p), replay.clone());
             }
         }
         Ok(frame) => {
             let valid = script_valid(c.w, &c.data, &log);
-            if !valid && !c.probe && c.lvl == Lvl::F {
+            if !valid && c.lvl == Lvl::F {
                 run.notes.push(format!("harness generated an invalid script for '{}'", c.label));
             }
             let blocks = &log.blocks;
@@ -427,23 +439,11 @@ fn run_case(run: &mut Run, c: &Case, seed: u64, spec_limit: usize, spec_budget: 
                     }
                 }
             }
-            if c.probe {
-                // Blocks larger than the window the header declares (outside `ValidMatcher.space_le`, but
-                // allowed by the Matcher trait's documentation): Block_Size > Block_Maximum_Size.
-                run.oracle_checks += 1;
-                let lz = gen::zstd_decode(&frame, None, c.data.len() + 64).map(|o| o == c.data);
-                run.notes.push(format!("probe '{}': libzstd {:?}", c.label, lz));
-                if lz != Some(true) {
-                    let maxb = walk_frame(&frame, true).map(|w| w.blocks.iter().map(|b| b.size).max().unwrap_or(0)).unwrap_or(0);
-                    run.fail("C16", "f11_block_exceeds_declared_window", format!("{}: window_size() = {} is declared as a {} byte window, but a {} byte block is emitted (Block_Size > Block_Maximum_Size = min(Window_Size, 128 KiB)); libzstd rejects the frame", c.label, c.w, declared_window(c.w), maxb), replay);
-                }
-                return;
-            }
             let spec_limit = if *spec_budget >= frame.len() { spec_limit } else { 0 };
             if frame.len() <= spec_limit {
                 *spec_budget -= frame.len();
             }
-            let fc = FrameCheck { rt_props: &["C16"], st_props: &["C16"], max_blocks: Some(blocks.len()), spec_limit, label: &c.label, replay: &replay };
+            let fc = FrameCheck { rt_props, st_props, max_blocks: Some(blocks.len()), spec_limit, label: &c.label, replay: &replay };
             check_frame(run, &fc, &c.data, &frame);
         }
     }
@@ -479,43 +479,77 @@ fn matchy_data(rng: &mut Rng, len: usize) -> Vec<u8> {
     }
 }
 
+/// corpus cases (`corpus/matcher_script/*.case`): `key=value` lines — label, w, spaces (comma list),
+/// lvl (f|u), mode (greedy|lazy|random|dense|far|literals), fixed (`block:ll:off:ml;…`), data (hex)
+fn load_corpus() -> Vec<Case> {
+    let mut v = vec![];
+    let mut names: Vec<_> = match std::fs::read_dir("corpus/matcher_script") {
+        Ok(rd) => rd.filter_map(|e| e.ok()).map(|e| e.path()).filter(|p| p.extension().map(|x| x == "case").unwrap_or(false)).collect(),
+        Err(_) => return v,
+    };
+    names.sort();
+    for path in names {
+        let text = match std::fs::read_to_string(&path) {
+            Ok(t) => t,
+            Err(_) => continue,
+        };
+        let mut kv: HashMap<String, String> = HashMap::new();
+        for l in text.lines() {
+            if l.starts_with('#') {
+                continue;
+            }
+            if let Some((k, val)) = l.split_once('=') {
+                kv.insert(k.trim().to_string(), val.trim().to_string());
+            }
+        }
+        let get = |k: &str| kv.get(k).cloned().unwrap_or_default();
+        let mode = match get("mode").as_str() {
+            "lazy" => Mode::Lazy,
+            "random" => Mode::Random,
+            "dense" => Mode::Dense,
+            "far" => Mode::Far,
+            "literals" => Mode::LiteralsOnly,
+            _ => Mode::Greedy,
+        };
+        let mut p = plan(mode);
+        for item in get("fixed").split(';').filter(|x| !x.is_empty()) {
+            let n: Vec<usize> = item.split(':').filter_map(|x| x.parse().ok()).collect();
+            if n.len() == 4 {
+                p.fixed.entry(n[0]).or_default().push((n[1], n[2], n[3]));
+            }
+        }
+        let data = match unhex(&get("data")) {
+            Some(d) => d,
+            None => continue,
+        };
+        let spaces: Vec<usize> = get("spaces").split(',').filter_map(|x| x.parse().ok()).collect();
+        if spaces.is_empty() {
+            continue;
+        }
+        v.push(Case {
+            label: format!("corpus {}: {}", path.file_name().unwrap().to_string_lossy(), get("label")),
+            w: get("w").parse().unwrap_or(131072),
+            spaces,
+            plan: p,
+            data,
+            lvl: if get("lvl") == "u" { Lvl::U } else { Lvl::F },
+            frags: vec![],
+        });
+    }
+    v
+}
+
 pub fn run(opts: &Opts) -> Run {
     let mut run = Run::new("matcher_script");
     let mut rng = Rng::new(opts.seed ^ 0xc16);
-    let mut cases: Vec<Case> = vec![];
+    // ---- corpus first: witnesses of repaired findings (F4, F10, F13) must pass now
+    let mut cases: Vec<Case> = load_corpus();
+    run.stat("corpus_cases", cases.len() as u64);
     let spec_limit = if opts.thorough { 300_000 } else { 8_000 };
     let mut spec_budget: usize = if opts.thorough { 20_000_000 } else { 160_000 };
 
     // ---- directed cases -----------------------------------------------------------------------
-    // F4: every literal length 0 (a block that is one match into the previous block)
-    {
-        let a = rng.bytes(300);
-        let mut d = a.clone();
-        d.extend_from_slice(&a);
-        let mut p = plan(Mode::Greedy);
-        p.allow_f4 = true;
-        p.fixed.insert(1, vec![(0, 300, 300)]);
-        cases.push(Case { label: "F4 witness: block = one match, all literal lengths 0".into(), w: 2048, spaces: vec![300], plan: p, data: d, lvl: Lvl::F, frags: vec![], probe: false });
-    }
-    // F4: every match length 3
-    {
-        let mut d = b"abcdefgh".to_vec();
-        d.extend_from_slice(b"XabcYdefZ");
-        let mut p = plan(Mode::Greedy);
-        p.allow_f4 = true;
-        p.fixed.insert(0, vec![(9, 8, 3), (1, 9, 3)]);
-        cases.push(Case { label: "F4 witness: all match lengths 3".into(), w: 2048, spaces: vec![2048], plan: p, data: d, lvl: Lvl::F, frags: vec![], probe: false });
-    }
-    // F10: > 1024 literals of one value in a non-constant block
-    {
-        let a = rng.bytes(100);
-        let mut d = a.clone();
-        d.extend(vec![b'a'; 1500]);
-        d.extend_from_slice(&a[..50]);
-        let mut p = plan(Mode::Greedy);
-        p.fixed.insert(1, vec![(1500, 1600, 50)]);
-        cases.push(Case { label: "F10 witness: 1500 literals of one value, block not constant".into(), w: 4096, spaces: vec![100, 1550], plan: p, data: d, lvl: Lvl::F, frags: vec![], probe: false });
-    }
+    // (witnesses of F4, F10 and F13 live in corpus/matcher_script/ and run first)
     // sequence counts around the 2-byte / 3-byte boundary of the count field (F3, fixed) and the maximum
     for &nseq in &[127usize, 128, 32511, 32512, 32513, 43000] {
         if !opts.thorough && nseq == 32513 {
@@ -535,7 +569,7 @@ pub fn run(opts: &Opts) -> Run {
         parse.push((0, 3, 4)); // one match length != 3, first literal length != 0: not F4
         let mut p = plan(Mode::Greedy);
         p.fixed.insert(0, parse);
-        cases.push(Case { label: format!("{} sequences in one block", nseq), w: 131072, spaces: vec![BLOCK], plan: p, data: d, lvl: Lvl::F, frags: vec![], probe: false });
+        cases.push(Case { label: format!("{} sequences in one block", nseq), w: 131072, spaces: vec![BLOCK], plan: p, data: d, lvl: Lvl::F, frags: vec![] });
     }
     // maximal lengths: ml = 131071 after one literal; ll = 131069 then ml = 3
     {
@@ -544,14 +578,14 @@ pub fn run(opts: &Opts) -> Run {
         d.extend_from_slice(&a);
         let mut p = plan(Mode::Greedy);
         p.fixed.insert(1, vec![(1, BLOCK, BLOCK - 1)]);
-        cases.push(Case { label: "match length 131071 at offset 131072".into(), w: 262144, spaces: vec![BLOCK], plan: p, data: d, lvl: Lvl::F, frags: vec![], probe: false });
+        cases.push(Case { label: "match length 131071 at offset 131072".into(), w: 262144, spaces: vec![BLOCK], plan: p, data: d, lvl: Lvl::F, frags: vec![] });
         let mut d = gen::data(&mut rng, "text", BLOCK - 10);
         let t: Vec<u8> = d[10..13].to_vec();
         d.extend_from_slice(&t);
         d.extend_from_slice(b"pqrpqrp");
         let mut p = plan(Mode::Greedy);
         p.fixed.insert(0, vec![(BLOCK - 10, BLOCK - 10 - 10, 3), (3, 3, 4)]);
-        cases.push(Case { label: "literal length 131062 then match length 3".into(), w: 131072, spaces: vec![BLOCK], plan: p, data: d, lvl: Lvl::F, frags: vec![], probe: false });
+        cases.push(Case { label: "literal length 131062 then match length 3".into(), w: 131072, spaces: vec![BLOCK], plan: p, data: d, lvl: Lvl::F, frags: vec![] });
     }
     // offset exactly the window, match to the very first byte of the frame, overlapping match (offset 1)
     {
@@ -562,7 +596,7 @@ pub fn run(opts: &Opts) -> Run {
         d.extend(rng.bytes(5));
         let mut p = plan(Mode::Greedy);
         p.fixed.insert(0, vec![(1024, 1024, 500), (0, 1, 40)]);
-        cases.push(Case { label: "offset = window = position, then offset 1 overlap".into(), w: 1024, spaces: vec![2048], plan: p, data: d, lvl: Lvl::F, frags: vec![1, 2, 3], probe: false });
+        cases.push(Case { label: "offset = window = position, then offset 1 overlap".into(), w: 1024, spaces: vec![2048], plan: p, data: d, lvl: Lvl::F, frags: vec![1, 2, 3] });
     }
     // Huffman literals, treeless after a compressed block, and after a block forced raw (F5 scenario, scripted)
     {
@@ -574,7 +608,7 @@ pub fn run(opts: &Opts) -> Run {
         p.fixed.insert(0, vec![(2999, 1999, 4)]);
         p.fixed.insert(1, vec![(2999, 1999, 4)]);
         p.fixed.insert(2, vec![(2999, 1999, 4)]);
-        cases.push(Case { label: "three identical blocks of 3000 literals over 255 values + one 4-byte match".into(), w: 4096, spaces: vec![3004], plan: p, data: d, lvl: Lvl::F, frags: vec![], probe: false });
+        cases.push(Case { label: "three identical blocks of 3000 literals over 255 values + one 4-byte match".into(), w: 4096, spaces: vec![3004], plan: p, data: d, lvl: Lvl::F, frags: vec![] });
         // sweep of the same scenario: block sizes x flattening depths, so that some land in the narrow band
         // where Huffman gains a few bytes but the block is still stored raw (table remembered, F5)
         let sizes: &[usize] = if opts.thorough { &[1500, 2200, 3004, 5000, 9000, 20000] } else { &[2200, 3004, 9000] };
@@ -587,7 +621,7 @@ pub fn run(opts: &Opts) -> Run {
                 let mut p = plan(Mode::LiteralsOnly);
                 p.fixed.insert(0, vec![(n - 5, n - 5 - 1000, 4)]);
                 p.fixed.insert(1, vec![(n - 5, n - 5 - 1000, 4)]);
-                cases.push(Case { label: format!("treeless-after-raw sweep n={} moves={}", n, m), w: 131072, spaces: vec![n], plan: p, data: d, lvl: Lvl::F, frags: vec![], probe: false });
+                cases.push(Case { label: format!("treeless-after-raw sweep n={} moves={}", n, m), w: 131072, spaces: vec![n], plan: p, data: d, lvl: Lvl::F, frags: vec![] });
             }
         }
         // full-size blocks (the band exists only where the Huffman table description is cheap relative to the block)
@@ -598,25 +632,28 @@ pub fn run(opts: &Opts) -> Run {
             d.extend_from_slice(&blk[..*rng.pick(&[3000usize, 40_000, BLOCK])]);
             let mut p = plan(Mode::LiteralsOnly);
             p.fixed.insert(0, vec![(BLOCK - 5, BLOCK - 5 - 1000, 5)]);
-            cases.push(Case { label: format!("treeless-after-raw full block moves={}", m), w: 131072, spaces: vec![BLOCK], plan: p, data: d, lvl: Lvl::F, frags: vec![], probe: false });
+            cases.push(Case { label: format!("treeless-after-raw full block moves={}", m), w: 131072, spaces: vec![BLOCK], plan: p, data: d, lvl: Lvl::F, frags: vec![] });
         }
         let t = gen::data(&mut rng, "text", 12000);
         let mut p = plan(Mode::LiteralsOnly);
         p.chain = 1;
-        cases.push(Case { label: "text, literals only, 3 blocks (Huffman, then treeless)".into(), w: 4096, spaces: vec![4000], plan: p, data: t, lvl: Lvl::F, frags: vec![], probe: false });
+        cases.push(Case { label: "text, literals only, 3 blocks (Huffman, then treeless)".into(), w: 4096, spaces: vec![4000], plan: p, data: t, lvl: Lvl::F, frags: vec![] });
     }
-    // window / space probes OUTSIDE ValidMatcher: blocks larger than the declared window
-    {
-        let t = gen::data(&mut rng, "text", 9000);
-        cases.push(Case { label: "PROBE window_size 1024 (declared 2 KiB) with 4 KiB spaces".into(), w: 1024, spaces: vec![4096], plan: plan(Mode::Greedy), data: t.clone(), lvl: Lvl::F, frags: vec![], probe: true });
-        cases.push(Case { label: "PROBE window_size 1024 (declared 2 KiB) with 4 KiB spaces, Uncompressed".into(), w: 1024, spaces: vec![4096], plan: plan(Mode::Greedy), data: t, lvl: Lvl::U, frags: vec![], probe: true });
+    // F13 (repaired): window_size() far below the size of the spaces; the header must declare a window
+    // that covers every block (these frames were rejected by libzstd before the repair)
+    for (w, sp) in [(0u64, BLOCK), (1024, BLOCK), (1024, 2049), (5000, 70_000), (65_536, BLOCK)] {
+        let t = gen::data(&mut rng, "text", sp * 2 + 900);
+        for lvl in [Lvl::F, Lvl::U] {
+            cases.push(Case { label: format!("F13 window_size {} with {} byte spaces", w, sp), w, spaces: vec![sp], plan: plan(Mode::Greedy), data: t.clone(), lvl, frags: vec![] });
+        }
     }
 
     // ---- generated cases ----------------------------------------------------------------------
-    let n = if opts.thorough { 6000 } else { 260 };
+    let n = if opts.thorough { 3000 } else { 260 };
     for i in 0..n {
         let w = *rng.pick(&[1024u64, 1500, 2048, 4096, 10_000, 65_536, 131_072, 200_000, 262_144, 1 << 20, 1 << 22, 0, 1, 3000]);
-        let maxs = declared_window(w).min(BLOCK as u64) as usize;
+        // spaces are limited by the trait's 128 KiB only, whatever the window (F13 repaired)
+        let maxs = if rng.chance(1, 3) { BLOCK } else { (w.max(2048).next_power_of_two() as usize).min(BLOCK) };
         let nsp = rng.range(1, 6) as usize;
         let spaces: Vec<usize> = (0..nsp)
             .map(|_| match rng.below(5) {
@@ -637,14 +674,14 @@ pub fn run(opts: &Opts) -> Run {
         p.chain = *rng.pick(&[1usize, 4, 16]);
         let lvl = if rng.chance(1, 6) { Lvl::U } else { Lvl::F };
         let frags = frag_scripts(&mut rng, data.len());
-        cases.push(Case { label: format!("gen#{} w={} spaces={:?} mode={:?} len={} lvl={:?}", i, w, spaces, mode, data.len(), lvl), w, spaces, plan: p, data, lvl, frags, probe: false });
+        cases.push(Case { label: format!("gen#{} w={} spaces={:?} mode={:?} len={} lvl={:?}", i, w, spaces, mode, data.len(), lvl), w, spaces, plan: p, data, lvl, frags });
     }
 
     for (i, c) in cases.iter().enumerate() {
         if i < 4 {
             run.samples.push(format!("{} ({} bytes, level {:?})", c.label, c.data.len(), c.lvl));
         }
-        run_case(&mut run, c, opts.seed.wrapping_mul(1000) + i as u64, spec_limit, &mut spec_budget);
+        run_case(&mut run, c, opts.seed.wrapping_mul(1000) + i as u64, spec_limit, &mut spec_budget, &["C16"], &["C16"]);
     }
     run
 }
